@@ -1,10 +1,17 @@
 package main
 
 import (
+	"bufio"
 	"bytes"
 	"fmt"
 	"io"
+	"os"
+	"os/exec"
 	"strings"
+	"time"
+
+	"github.com/alibaba/RedisShake/pkg/libs/atomic2"
+	conf "github.com/alibaba/RedisShake/redis-shake/configure"
 
 	cupcake "github.com/alibaba/RedisShake/pkg/libs/cupcake/rdb"
 	cupcrc "github.com/alibaba/RedisShake/pkg/libs/cupcake/rdb/crc64"
@@ -135,6 +142,49 @@ func genC11(g *gen) {
 			g.emit("footer %s %s", hx(e), hx(t))
 		}
 	}
+	// whole RDB files through utils.NewRDBLoader — the entry point of sync, restore and decode — under different
+	// configurations (big_key_threshold 1 is what a given target.version forces; parallel, rewrite, …): intact files are
+	// accepted with all their entries, a changed value byte, a changed or a short checksum makes the tool stop
+	nl := g.pick(6, 40)
+	for i := 0; i < nl; i++ {
+		var b bytes.Buffer
+		b.WriteString([]string{"REDIS0006", "REDIS0007", "REDIS0009", "REDIS0008"}[g.r.Intn(4)])
+		var dataPos []int
+		ne := 1 + g.r.Intn(4)
+		for k := 0; k < ne; k++ {
+			key, val := g.bytes(1+g.r.Intn(6)), g.bytes(1+g.r.Intn(20))
+			b.WriteByte(0)
+			b.WriteByte(byte(len(key)))
+			b.Write(key)
+			b.WriteByte(byte(len(val)))
+			for range val {
+				dataPos = append(dataPos, b.Len())
+				b.WriteByte(0)
+			}
+			copy(b.Bytes()[b.Len()-len(val):], val)
+		}
+		b.WriteByte(0xff)
+		cov := b.Bytes()
+		tr := crc64Trailer(cov)
+		cfgs := []string{"1", "2", "52428800", "524288000", "1/tv=4.0", "16/par=1", "1/rw=0"}
+		for _, cf := range cfgs {
+			g.emit("ldfile %s %d %s %s", cf, ne, hx(cov), hx(tr))
+		}
+		for m := 0; m < g.pick(10, 40); m++ {
+			cf := cfgs[g.r.Intn(len(cfgs))]
+			e := append([]byte{}, cov...)
+			t := append([]byte{}, tr...)
+			switch g.r.Intn(3) {
+			case 0:
+				e[dataPos[g.r.Intn(len(dataPos))]] ^= byte(1 + g.r.Intn(255))
+			case 1:
+				t[g.r.Intn(8)] ^= byte(1 + g.r.Intn(255))
+			default:
+				t = t[:g.r.Intn(8)]
+			}
+			g.emit("ldfile %s %d %s %s", cf, ne, hx(e), hx(t))
+		}
+	}
 	// DUMP payloads with structured wrong checksums / versions
 	for i := 0; i < g.pick(6, 60); i++ {
 		t := byte(g.r.Intn(16))
@@ -219,6 +269,28 @@ func runC11(f []string) string {
 			r += fmt.Sprintf(":%d:%016x", ver, sum)
 		}
 		return r
+	case "ldfile":
+		if os.Getenv("VERIF_C11_CHILD") == "" {
+			return c11Parent(strings.Join(f, " "))
+		}
+		for i, kv := range strings.Split(f[1], "/") {
+			switch {
+			case i == 0:
+				conf.Options.BigKeyThreshold = uint64(atoi(kv))
+			case strings.HasPrefix(kv, "tv="):
+				conf.Options.TargetVersion = kv[3:]
+			case strings.HasPrefix(kv, "par="):
+				conf.Options.Parallel = atoi(kv[4:])
+			case strings.HasPrefix(kv, "rw="):
+				conf.Options.KeyExists = "rewrite"
+			}
+		}
+		var rbytes atomic2.Int64
+		n := 0
+		for range utils.NewRDBLoader(bufio.NewReader(bytes.NewReader(append(unhx(f[3]), unhx(f[4])...))), &rbytes, 16) {
+			n++
+		}
+		return fmt.Sprintf("accept %d", n)
 	case "footer":
 		cov, tr := unhx(f[1]), unhx(f[2])
 		var src io.Reader = bytes.NewReader(append(append([]byte{}, cov...), tr...))
@@ -247,4 +319,45 @@ func runC11(f []string) string {
 		return "ok"
 	}
 	return "badcase"
+}
+
+// c11Parent runs one case in a child process: utils.NewRDBLoader stops the tool (log.PanicError) from its own goroutine
+func c11Parent(line string) string {
+	cmd := exec.Command(os.Args[0], "run", "C11")
+	cmd.Env = append(os.Environ(), "VERIF_C11_CHILD=1")
+	in, _ := cmd.StdinPipe()
+	out, _ := cmd.StdoutPipe()
+	var tail bytes.Buffer
+	cmd.Stderr = &tail
+	if err := cmd.Start(); err != nil {
+		return "spawn-failed"
+	}
+	type ans struct {
+		s   string
+		err error
+	}
+	ch := make(chan ans, 1)
+	go func() {
+		io.WriteString(in, line+"\n")
+		in.Close() // the concurrent runner reads its whole input first
+		s, err := bufio.NewReaderSize(out, 1<<20).ReadString('\n')
+		ch <- ans{strings.TrimRight(s, "\n"), err}
+	}()
+	select {
+	case a := <-ch:
+		if a.err != nil {
+			cmd.Wait()
+			if strings.Contains(tail.String(), "VerifExit") {
+				return "abort"
+			}
+			return "crash"
+		}
+		cmd.Process.Kill()
+		cmd.Wait()
+		return a.s
+	case <-time.After(40 * time.Second):
+		cmd.Process.Kill()
+		cmd.Wait()
+		return "timeout"
+	}
 }
